@@ -126,6 +126,19 @@ fn seq_case(idx: u64, alg: Algorithm, a: &[u32], b: &[u32], threads: bool, out: 
         }
         Err(p) => out.violation("panic", format!("{} | {}", p, ctx())),
     }
+    for c in [1u64, 7, 1000] {
+        let ra: Vec<u64> = a.iter().map(|x| (*x as u64) * 3 + c).collect();
+        let rb: Vec<u64> = b.iter().map(|x| (*x as u64) * 3 + c).collect();
+        out.eval();
+        match guard(|| capture_diff_slices(alg, &ra, &rb)) {
+            Ok(o) => {
+                if o != base {
+                    out.violation("determinism.relabel_u64", format!("relabelled x -> 3x+{}: {} instead of {} | {}", c, fmt_ops(&o), fmt_ops(&base), ctx()));
+                }
+            }
+            Err(p) => out.violation("panic", format!("{} | {}", p, ctx())),
+        }
+    }
     // (e) same values, every hash colliding (a legal Hash implementation)
     let ca: Vec<CollidingElem> = a.iter().map(|x| CollidingElem(*x)).collect();
     let cb: Vec<CollidingElem> = b.iter().map(|x| CollidingElem(*x)).collect();
@@ -236,10 +249,10 @@ pub fn families() -> Vec<Box<dyn Family>> {
             "long sequences of mostly unique items (2100..9000 items; thorough up to 70000) with 20..80 swapped / moved blocks so that the choice of Patience anchors matters: repeated calls, another thread, relabelling to u64 — all three algorithms where affordable (LCS: windowed edits only)",
             false,
             1,
-            |cfg| if cfg.tiny { 1 } else { cfg.tier.pick(12, 80) },
+            |cfg| if cfg.tiny { 1 } else { cfg.tier.pick(24, 120) },
             |idx, cfg, out| {
                 let mut rng = Rng::for_case(cfg.seed, "c20.seq_big", idx);
-                let n = if cfg.tiny { 12 } else { *rng.pick(&[2100usize, 4200, 6000, cfg.tier.pick(9000, 70_000)]) };
+                let n = if cfg.tiny { 12 } else { *rng.pick(&[600usize, 1000, 2100, 4200, 6000, cfg.tier.pick(9000, 70_000)]) };
                 let a: Vec<u32> = (0..n as u32).map(|i| if rng.chance(1, 10) { i % 7 } else { 100 + i }).collect();
                 let mut b = a.clone();
                 let swaps = if cfg.tiny { 1 } else { rng.range(20, 80) };
@@ -251,7 +264,16 @@ pub fn families() -> Vec<Box<dyn Family>> {
                         b.swap(i + k, j + k);
                     }
                 }
-                out.sample(|| format!("N={} with {} swapped blocks", n, swaps));
+                // unmatched unique items on both sides (a few percent), so that the set of anchors
+                // is not simply "everything"
+                let mut a = a;
+                for _ in 0..n / 25 {
+                    let i = rng.below(b.len());
+                    b[i] = 5_000_000 + rng.below(1_000_000) as u32;
+                    let j = rng.below(a.len());
+                    a[j] = 7_000_000 + rng.below(1_000_000) as u32;
+                }
+                out.sample(|| format!("N={} with {} swapped blocks and {} replaced items per side", n, swaps, n / 25));
                 out.count("big_cases");
                 for alg in [Algorithm::Patience, Algorithm::Myers] {
                     out.nontrivial(&(alg_name(alg), &a, &b));
